@@ -584,6 +584,9 @@ def run(ctx):
     stream_corpus(ctx, mods, specs)
     pop = Population(mods, specs)
     ex = stream_classes(ctx, mods, specs, pop)
+    stream_qids(ctx, mods, pop)
+    stream_id_cache(ctx, mods, pop, ex.instances)
+    stream_xproc(ctx, mods, ex)
 
 
 def replay(ctx, data):
@@ -671,10 +674,14 @@ class Population:
                 elif name in getattr(sp, 'tested_elsewhere', []):
                     status = 'tested_elsewhere in upstream spec'
                 is_type = isinstance(factory, type)
+                named = self.all_named.get((sp.name, name), [])
                 if is_type:
                     stored = list(self.by_type.get(factory, []))
+                    stored += [o for o in named if isinstance(o, factory) and not any(o is s for s in stored)]
+                elif '.' in name or name in ('complex',):
+                    stored = list(named)        # leaf encodings (sympy.*, pandas.*, datetime, complex) registered as functions
                 else:
-                    stored = [o for o in self.all_named.get((sp.name, name), [])]
+                    stored = []                 # legacy reader functions: covered by the corpus stream only
                 self.entries.append(dict(spec=sp.name, name=name, factory=factory, is_type=is_type, stored=stored,
                                          status=status, has_doc=any(os.path.exists(os.path.join(str(sp.test_data_path), name + e))
                                                                     for e in ('.json', '.json_inward'))))
@@ -707,10 +714,24 @@ def custom_instances(mods, pop):
     """instances for registered classes that have no stored example"""
     cirq, cg = mods['cirq'], mods['cirq_google']
     out = {}
-    gnp = pop.by_type.get(cg.GoogleNoiseProperties, [])
-    if gnp:
-        out['NoiseModelFromNoiseProperties'] = [cirq.NoiseModelFromNoiseProperties(gnp[0])]
+    try:
+        with warnings.catch_warnings():
+            warnings.simplefilter('ignore')
+            cal = cg.engine.load_median_device_calibration('rainbow')
+            props = cg.noise_properties_from_calibration(cal, gate_times_ns='legacy')
+            out['NoiseModelFromNoiseProperties'] = [cirq.NoiseModelFromNoiseProperties(props)]
+    except Exception:      # noqa  (then the class is reported as skipped / gap)
+        pass
     return out
+
+
+# (class, field) mutations that build objects the constructor does not validate and that are not values of the class
+MUTATION_DENYLIST = {
+    ('_XEigenState', 'eigenvalue'): 'eigenvalue must be +1/-1; the constructor does not validate',
+    ('_YEigenState', 'eigenvalue'): 'eigenvalue must be +1/-1; the constructor does not validate',
+    ('_ZEigenState', 'eigenvalue'): 'eigenvalue must be +1/-1; the constructor does not validate',
+    ('_QubitAsQid', 'dimension'): 'only reachable through with_dimension, which never keeps the qubit\'s own dimension',
+}
 
 
 class Mutator:
@@ -739,22 +760,35 @@ class Mutator:
             pass
         return [o for o in self.pop.by_type.get(t, []) if o != q][:2]
 
-    def alts(self, v, depth=0):
-        """typed alternatives for one field value (as a reader of the document sees it)"""
+    def alts(self, v, depth=0, sym=False):
+        """typed alternatives for one field value (as a reader of the document sees it); symbols only where the
+        constructor's annotation admits them (sym)"""
         cirq, sympy = self.cirq, self.sympy
         if isinstance(v, bool):
             return [not v]
         if isinstance(v, int):
-            return [c for c in (v + 1, v - 1, 0, 2, 3) if c != v]
+            out = [v + 1, v + 2] if v >= 0 else [v - 1]
+            if sym:
+                out.append(sympy.Symbol('vf_t'))
+            return out
         if isinstance(v, float):
             t = sympy.Symbol('vf_t')
-            return [c for c in (v + 0.25, -v, 0.0, 0.5, 1.0, 1 / 3, v * 1.5 + 0.125, t, 2 * t + 1) if not (isinstance(c, float) and c == v)]
+            out = [c for c in (v + 0.25, -v, 0.5, 1.0, 1 / 3, v * 1.5 + 0.125, 0.0) if c != v]
+            if v < 0 or v > 1:
+                pass
+            return out + ([t, 2 * t + 1] if sym else [])
         if isinstance(v, complex):
             return [v * 1j, v + 0.5, 1j, 0.5 - 0.25j]
         if isinstance(v, str):
             return [v + 'x', 'vf_m']
         if isinstance(v, sympy.Basic):
-            return [sympy.Symbol('vf_u'), v + 1, 2 * v, 0.25]
+            out = [sympy.Symbol('vf_u')]
+            for f in (lambda: v + 1, lambda: 2 * v, lambda: v.subs({s: sympy.Symbol(s.name + '_m') for s in v.free_symbols})):
+                try:
+                    out.append(f())
+                except Exception:      # noqa
+                    pass
+            return out + [0.25]
         if isinstance(v, cirq.Qid):
             return self.qid_alts(v)
         if isinstance(v, (list, tuple)):
@@ -796,6 +830,22 @@ class Mutator:
             return out
         return []
 
+    @staticmethod
+    def annotations(cls):
+        out = {}
+        for f in (getattr(cls, '__init__', None), getattr(cls, '_from_json_dict_', None)):
+            try:
+                for p in inspect.signature(f).parameters.values():
+                    if p.annotation is not inspect.Parameter.empty:
+                        out.setdefault(p.name, str(p.annotation))
+            except (TypeError, ValueError):
+                pass
+        return out
+
+    @staticmethod
+    def admits_symbols(ann):
+        return ann is not None and any(t in ann for t in ('TParamVal', 'sympy', 'TParamKey'))
+
     def view(self, x):
         cirq = self.cirq
         d0 = x._json_dict_()
@@ -819,21 +869,16 @@ class Mutator:
         for p in list(sig.parameters.values())[1:]:
             if p.name in d or p.kind in (p.VAR_POSITIONAL, p.VAR_KEYWORD) or p.default is inspect.Parameter.empty:
                 continue
-            dv, ann = p.default, str(p.annotation)
+            dv, ann = p.default, str(p.annotation).replace('typing.', '').replace('Optional[', '').replace(' | None', '').replace('None | ', '').rstrip(']').strip("'")
+            if (cls.__name__, p.name) in MUTATION_DENYLIST:
+                continue
             if isinstance(dv, (bool, int, float, str)) and not isinstance(dv, type):
-                cands = self.alts(dv)[:3]
+                cands = self.alts(dv, sym=self.admits_symbols(ann))[:3]
             elif dv is None or dv == ():
-                cands = []
-                if 'float' in ann or 'TParamVal' in ann:
-                    cands += [0.25, 1.5]
-                if 'int' in ann:
-                    cands += [1, 3]
-                if 'str' in ann:
-                    cands += ['vf_s']
-                if 'bool' in ann:
-                    cands += [True, False]
-                if 'Hashable' in ann or 'tags' in p.name:
-                    cands += [('vf_tag',)]
+                cands = {'float': [0.25, 1.5], 'int': [1, 3], 'str': ['vf_s'], 'bool': [True, False],
+                         'value.TParamVal': [0.25, self.sympy.Symbol('vf_t')], 'cirq.TParamVal': [0.25, self.sympy.Symbol('vf_t')]}.get(ann, [])
+                if p.name == 'tags':
+                    cands = [('vf_tag',)]
             else:
                 cands = []
             for c in cands:
@@ -851,17 +896,30 @@ class Mutator:
         except Exception:      # noqa
             return []
         cands = []
+        anns = self.annotations(cls)
         for k in d:
-            for a in self.alts(d[k], depth):
+            if (cls.__name__, k) in MUTATION_DENYLIST:
+                continue
+            for a in self.alts(d[k], depth, sym=self.admits_symbols(anns.get(k))):
                 cands.append((k, a, False))
         for k, a in self.ctor_extras(cls, d):
             cands.append((k, a, True))
-        self.rng.shuffle(cands)
-        # one candidate per field first, so that every field is varied before any is varied twice
-        seenk, first, rest = set(), [], []
+        # every field is varied before any is varied twice: per field the symbolic alternative (when the annotation admits
+        # symbols), then the first typed alternative, then random further ones
+        byk = collections.OrderedDict()
         for c in cands:
-            (first if c[0] not in seenk else rest).append(c)
-            seenk.add(c[0])
+            byk.setdefault(c[0], []).append(c)
+        first, second, rest = [], [], []
+        for k, cs in byk.items():
+            syms = [c for c in cs if isinstance(c[1], self.sympy.Basic)]
+            plain = [c for c in cs if not isinstance(c[1], self.sympy.Basic)]
+            order = syms[:1] + plain[:1]
+            others = [c for c in cs if c not in order]
+            self.rng.shuffle(others)
+            first += order[:1]
+            second += order[1:2]
+            rest += others
+        first = first + second
         out, texts = [], set()
         for k, a, extra in (first + rest)[:tries]:
             try:
@@ -916,7 +974,10 @@ class Explorer:
         self.ns_lenient = lenient
         self.stats = collections.Counter()
         self.repr_lenient_classes = set()
+        self.str_differs = set()
+        self.unhashable_in_frozen = set()
         self.xproc = []          # (label, pickle bytes, json text)
+        self.instances = []
 
     # -- individual checks; each returns None (ok / not applicable) or a failure text
     def c_json(self, x):
@@ -926,6 +987,7 @@ class Explorer:
         self._y, self._text = y, text
         if not (_safe_eq(y, x) and _safe_eq(x, y)):
             return f'read_json(to_json(x)) = {y!r} != x'
+        self._json_ok = True
         return None
 
     def c_hash(self, x):
@@ -992,7 +1054,8 @@ class Explorer:
                 if not np.allclose(np.array(va), np.array(vb), atol=1e-8):
                     return f'cirq.unitary differs after the round trip'
             elif va != vb:
-                if k == 'str' and (' at 0x' in str(va)):
+                if k == 'str':       # str is not pinned by the property (set order, dtype spelling): recorded, not deciding
+                    self.str_differs.add(type(x).__name__)
                     continue
                 return f'{k} differs after the round trip: {str(va)[:120]!r} vs {str(vb)[:120]!r}'
         self.stats['behaviour_checked'] += 1
@@ -1006,7 +1069,7 @@ class Explorer:
             return f'pickle.loads(pickle.dumps(x)) = {p!r} != x'
         if hx is not None and hash(p) != hx:
             return 'hash of the unpickled value differs'
-        if hx is not None and self._text is not None and len(self.xproc) < 4000:
+        if hx is not None and self._text is not None and self._json_ok and len(self.xproc) < 4000:
             self.xproc.append((label, data, self._text))
         return None
 
@@ -1043,7 +1106,13 @@ class Explorer:
     def c_nested(self, x):
         cirq = self.cirq
         for n in self.nestings(x):
-            text = cirq.to_json(n)
+            try:
+                text = cirq.to_json(n)
+            except TypeError as e:
+                if 'unhashable type' in str(e) and not _hashable(x):
+                    self.unhashable_in_frozen.add(type(x).__name__)
+                    return 'UNHASHABLE-IN-FROZEN'
+                raise
             back = cirq.read_json(json_text=text)
             if not _deep_eq(back, n):
                 return f'nested value does not round-trip: {n!r}'[:400]
@@ -1057,7 +1126,7 @@ class Explorer:
     def check(self, name, x, origin, info=None):
         """all checks on one instance; returns list of (check, detail)"""
         fails = []
-        self._y, self._text = None, None
+        self._y, self._text, self._json_ok = None, None, False
         label = f'{name}:{origin}'
         for chk, f in (('json', lambda: self.c_json(x)), ('hash', lambda: self.c_hash(x)), ('repr', lambda: self.c_repr(x, name)),
                        ('behaviour', lambda: self.c_behaviour(x)), ('pickle', lambda: self.c_pickle(x, label)),
@@ -1074,6 +1143,8 @@ class Explorer:
                 r = f'{type(e).__name__}: {e}'[:300]
             if r is not None:
                 fails.append((chk, r))
+        if self._json_ok and not any(c == 'nested' for c, _ in fails):
+            self.instances.append(x)      # material for the id-cache stress stream
         return fails
 
 
@@ -1108,7 +1179,7 @@ def _nocache_encoder(cirq):
 def stream_classes(ctx, mods, specs, pop):
     cirq = mods['cirq']
     quick = ctx.tier == 'quick'
-    keep, tries, max_stored = (4, 16, 3) if quick else (16, 80, 12)
+    keep, tries, max_stored = (8, 40, 3) if quick else (24, 120, 12)
     mut = Mutator(mods, pop, ctx.rng)
     ex = Explorer(ctx, mods, pop)
     custom = custom_instances(mods, pop)
@@ -1150,6 +1221,7 @@ def stream_classes(ctx, mods, specs, pop):
                 nmut += 1
         table['mutants'] += nmut
         (table['with_mutants'] if nmut else table['stored_only']).append(label)
+        base_fail = set()       # checks that already fail on a stored example of this class: not re-reported for its mutants
         for x, origin, *rest in [(a, b) for a, b in insts] + mutated:
             info = rest[0] if rest else None
             table['instances'] += 1
@@ -1159,12 +1231,29 @@ def stream_classes(ctx, mods, specs, pop):
             except Exception:      # noqa
                 key = label + '|' + origin
             ctx.count('classes', key, True, sample=dict(cls=label, origin=origin, mutated=info, value=_short_repr(x)))
+            failed = {c for c, _ in fails}
             for chk, detail in fails:
-                sig = f'class:{label}:{chk}'
+                if chk in ('hash', 'behaviour', 'nested') and 'json' in failed:
+                    continue            # consequences of the failed round trip of the same instance
+                if detail == 'UNHASHABLE-IN-FROZEN':
+                    ctx.violation('codec:frozen-circuit-with-unhashable-operation',
+                                  f'cirq.to_json raises TypeError (unhashable) for a FrozenCircuit holding an operation of an unhashable gate, e.g. {label}: the by-key memo hashes the circuit',
+                                  _replay_of(cirq, label, x, chk, origin))
+                    continue
+                if info is None:
+                    base_fail.add(chk)
+                    sig = f'class:{label}:{chk}'
+                else:
+                    if chk in base_fail:
+                        continue
+                    sig = f'class:{label}:{chk}:{info["field"]}'
                 if sig not in fail_by_sig:
                     fail_by_sig[sig] = (x, origin, detail)
                     ctx.violation(sig, f'{label} ({origin}) {chk}: {detail}'[:700], _replay_of(cirq, label, x, chk, origin))
     table['repr_needs_unqualified_names'] = sorted(ex.repr_lenient_classes)
+    table['str_differs_after_roundtrip_not_deciding'] = sorted(ex.str_differs)
+    table['unhashable_gates_break_frozen_circuit_json'] = sorted(ex.unhashable_in_frozen)
+    table['mutation_denylist'] = {f'{c}.{f}': r for (c, f), r in MUTATION_DENYLIST.items()}
     table['checks'] = dict(ex.stats)
     for k in ('with_mutants', 'stored_only', 'custom', 'gaps'):
         table['n_' + k] = len(table[k])
@@ -1189,3 +1278,336 @@ def _replay_of(cirq, label, x, chk, origin):
         except Exception:      # noqa
             pass
     return d
+
+
+# ------------------------------------------------------------------------------------------------ Qid ordering
+def qid_pool(mods, pop):
+    cirq, cp, cg = mods['cirq'], mods['cirq_pasqal'], mods['cirq_google']
+    pool = []
+    pool += [cirq.LineQubit(x) for x in (-1, 0, 1, 2, 10)]
+    pool += [cirq.LineQid(x, d) for x in (0, 1, 2) for d in (2, 3, 4)]
+    pool += [cirq.GridQubit(r, c) for r, c in ((0, 0), (0, 1), (1, 0), (2, -1), (10, 2))]
+    pool += [cirq.GridQid(r, c, dimension=d) for r, c in ((0, 0), (0, 1), (1, 0)) for d in (2, 3)]
+    pool += [cirq.NamedQubit(n) for n in ('a', 'b', 'a1', 'a10', 'a2', 'a02', '', 'q0', 'a1b2')]
+    pool += [cirq.NamedQid(n, d) for n in ('a', 'a2', 'a10') for d in (2, 3)]
+    pool += [cp.ThreeDQubit(1, 2, 3), cp.ThreeDQubit(0, 0, 0), cp.TwoDQubit(1, 2), cp.TwoDQubit(0, 3)]
+    pool += [cp.ThreeDQubit(1, 2, 3).with_dimension(3), cirq.testing.NoIdentifierQubit(), cirq.testing.NoIdentifierQubit().with_dimension(4)]
+    pool += [cg.Coupler(cirq.GridQubit(0, 0), cirq.GridQubit(0, 1)), cg.Coupler(cirq.GridQubit(0, 1), cirq.GridQubit(1, 1))]
+    for t, objs in pop.by_type.items():
+        if isinstance(t, type) and issubclass(t, cirq.Qid):
+            for o in objs:
+                if not any(o is p for p in pool):
+                    pool.append(o)
+    return pool
+
+
+def _enc_key(k):
+    if isinstance(k, bool):
+        raise ValueError(k)
+    if isinstance(k, int):
+        return [k]
+    if isinstance(k, float):
+        if k != int(k):
+            raise ValueError(k)
+        return [int(k)]
+    if isinstance(k, str):
+        return [ord(c) + 1 for c in k] + [0]
+    if isinstance(k, tuple):
+        out = []
+        for e in k:
+            out += _enc_key(e)
+        return out
+    raise ValueError(k)
+
+
+def _qid_family(cirq, q):
+    """0 = comparisons inherited from Qid (_cmp_tuple); otherwise the base class that overrides __lt__"""
+    for c in type(q).__mro__:
+        if '__lt__' in c.__dict__:
+            return None if c is cirq.Qid else c
+    return None
+
+
+def stream_qids(ctx, mods, pop):
+    cirq = mods['cirq']
+    pool = qid_pool(mods, pop)
+    stats = collections.Counter(pool=len(pool), classes=len({type(q) for q in pool}))
+    # ---- the property's own statement on the real objects
+    def viol(sig, what, qs):
+        ctx.violation('qid-order:' + sig, what, dict(kind='qids', reprs=[repr(q) for q in qs],
+                                                     pickle_b64=base64.b64encode(pickle.dumps(list(qs))).decode()))
+    for a in pool:
+        for b in pool:
+            lt, gt, eq = bool(a < b), bool(a > b), bool(a == b)
+            stats['pairs'] += 1
+            ctx.count('qid_pairs', repr((a, b)), type(a) is not type(b))
+            if [lt, eq, gt].count(True) != 1:
+                viol(f'trichotomy:{type(a).__name__}/{type(b).__name__}', f'{a!r} vs {b!r}: <,==,> = {lt},{eq},{gt} (exactly one must hold)', (a, b))
+            if bool(a <= b) != (lt or eq) or bool(a >= b) != (gt or eq) or bool(a != b) != (not eq) or gt != bool(b < a):
+                viol(f'derived:{type(a).__name__}/{type(b).__name__}', f'{a!r} vs {b!r}: <=, >=, != or reflected < disagree with <, ==', (a, b))
+            if eq and hash(a) != hash(b):
+                viol(f'hash:{type(a).__name__}/{type(b).__name__}', f'{a!r} == {b!r} but hashes differ', (a, b))
+    ntri = 4000 if ctx.tier == 'quick' else 60000
+    for _ in range(ntri):
+        a, b, c = (ctx.rng.choice(pool) for _ in range(3))
+        stats['triples'] += 1
+        if a < b and b < c and not a < c:
+            viol('transitivity', f'{a!r} < {b!r} < {c!r} but not {a!r} < {c!r}', (a, b, c))
+        if a == b and b == c and not a == c:
+            viol('eq-transitivity', f'{a!r} == {b!r} == {c!r} but not {a!r} == {c!r}', (a, b, c))
+        if a == b and (bool(a < c) != bool(b < c) or bool(c < a) != bool(c < b)):
+            viol('eq-congruence', f'{a!r} == {b!r} but they compare differently with {c!r}', (a, b, c))
+    sorts = []
+    for _ in range(40 if ctx.tier == 'quick' else 400):
+        sub = ctx.rng.sample(pool, ctx.rng.randint(2, min(14, len(pool))))
+        s1 = sorted(sub)
+        sh = list(sub)
+        ctx.rng.shuffle(sh)
+        s2 = sorted(sh)
+        stats['sorts'] += 1
+        ctx.count('qid_sorted', repr(sub), len({type(q) for q in sub}) >= 2, sample=dict(input=[repr(q) for q in sub], sorted=[repr(q) for q in s1]))
+        if any(s1[j] < s1[i] for i in range(len(s1)) for j in range(i + 1, len(s1))) or any(not x == y for x, y in zip(s1, s2)):
+            viol('sorted', f'sorted() of {sub!r} is not ordered or depends on the input order: {s1!r} / {s2!r}', sub)
+        sorts.append((sub, s1))
+    # ---- correspondence with the model (classes whose keys are integers/strings/tuples of those)
+    fams, modelled = [], {}
+    def rec(q):
+        fam_cls = _qid_family(cirq, q)
+        if fam_cls is not None and fam_cls not in fams:
+            fams.append(fam_cls)
+        fam = 0 if fam_cls is None else fams.index(fam_cls) + 1
+        tn = [ord(c) for c in type(q).__name__]
+        tr = [ord(c) for c in repr(type(q))]
+        return (tn, tr, _enc_key(q._comparison_key()), int(q.dimension), fam)
+    for i, q in enumerate(pool):
+        try:
+            modelled[i] = rec(q)
+        except (ValueError, TypeError):
+            stats['not_modelled'] += 1
+    idx = sorted(modelled)
+    ZL = coq.zlist
+    g = lambda r: f'(mkQid {ZL(r[0])} {ZL(r[1])} {ZL(r[2])} {coq.zlit(r[3])} {coq.zlit(r[4])})'
+    table = sorted({(tuple(r[0]), tuple(r[1]), r[4]) for r in modelled.values()})
+    text = CASES_HEADER + 'Definition pool : list qid := [\n' + ';\n'.join(g(modelled[i]) for i in idx) + '].\n'
+    text += 'Definition tbl : list trow := [' + '; '.join(f'({ZL(a)}, {ZL(b)}, {coq.zlit(f)})' for a, b, f in table) + '].\n'
+    text += 'Eval vm_compute in fam_table_ok tbl.\n'
+    pos = {i: n for n, i in enumerate(idx)}
+    rows = []
+    for i in idx:
+        for j in idx:
+            rows.append((pos[i], pos[j], bool(pool[i] < pool[j]), bool(pool[i] == pool[j])))
+    text += 'Definition dq := mkQid [] [] [] 0 0.\n'
+    text += 'Definition cmp_cases : list (nat * nat * bool * bool) := [' + '; '.join(
+        f'({a}%nat, {b}%nat, {"true" if lt else "false"}, {"true" if eq else "false"})' for a, b, lt, eq in rows) + '].\n'
+    text += ('Eval vm_compute in failing (fun c => match c with (a, b, lt, eq) => '
+             'Bool.eqb (qid_ltb (nth a pool dq) (nth b pool dq)) lt && Bool.eqb (qid_eqb (nth a pool dq) (nth b pool dq)) eq end) cmp_cases.\n')
+    srows = []
+    for sub, s1 in sorts:
+        ii = [next(i for i, p in enumerate(pool) if p is q) for q in sub]
+        jj = [next(i for i, p in enumerate(pool) if p is q) for q in s1]
+        if all(i in modelled for i in ii):
+            srows.append(([pos[i] for i in ii], [pos[i] for i in jj]))
+    text += 'Definition sort_cases : list (list nat * list nat) := [' + '; '.join(
+        '([%s], [%s])' % ('; '.join(f'{a}%nat' for a in x), '; '.join(f'{a}%nat' for a in y)) for x, y in srows) + '].\n'
+    text += ('Definition qsame (a b : qid) := cmp_eqb a b && Z.eqb (q_fam a) (q_fam b).\n'
+             'Eval vm_compute in failing (fun c => match c with (x, y) => '
+             'list_eqb qsame (qsort (map (fun i => nth i pool dq) x)) (map (fun i => nth i pool dq) y) end) sort_cases.\n')
+    vals = coq.parse_evals(coq.coq_eval(f'c11_qids_{ctx.seed}', text))
+    assert len(vals) == 3, vals
+    stats['modelled'] = len(idx)
+    stats['class_table_rows'] = len(table)
+    stats['families'] = len(fams)
+    if vals[0].strip() != 'true':
+        ctx.mark_broken('obligation:fam_table_ok', 'the registered Qid class table is not convex: a class name sorts between two classes of one '
+                        f'comparison family; transitivity theorem does not apply. table={[("".join(map(chr, a)), f) for a, b, f in table]}')
+    for k in coq.parse_nat_list(vals[1]):
+        a, b, lt, eq = rows[k]
+        ctx.mark_broken('correspondence:qid_compare', f'model and implementation differ on {pool[idx[a]]!r} vs {pool[idx[b]]!r}: implementation <:{lt} ==:{eq}')
+    for k in coq.parse_nat_list(vals[2]):
+        ctx.mark_broken('correspondence:qid_sorted', f'model sort differs from sorted() on {[repr(pool[idx[i]]) for i in srows[k][0]]}')
+    # ---- the refuted statement, replayed on the implementation (outside the property's quantifier: an unregistered class)
+    class LineQjx(cirq.Qid):
+        def __init__(self, x):
+            self.x = x
+
+        def _comparison_key(self):
+            return self.x
+
+        @property
+        def dimension(self):
+            return 2
+    a, b, c = cirq.LineQid(9, 3), LineQjx(0), cirq.LineQubit(1)
+    stats['refuted_witness_cycles_on_implementation'] = bool(a < b and b < c and not a < c)
+    if not stats['refuted_witness_cycles_on_implementation']:
+        ctx.stale_supporting.append('C11_qid_mixed_trans_refuted: the witness no longer cycles on the implementation')
+    ctx.cov['qid_order'] = dict(stats)
+
+
+# ------------------------------------------------------------------------------------------------ the id()-keyed encoder cache (F5)
+def _audit_encoder(cirq):
+    import weakref
+    from cirq.protocols.json_serialization import CirqEncoder
+
+    class AuditEncoder(CirqEncoder):
+        """records a weak reference to every object whose id() enters _cache: a dead one means a reusable id"""
+        def __init__(self, *a, **kw):
+            super().__init__(*a, **kw)
+            self.audit, self.unauditable = [], 0
+
+        def default(self, o):
+            r = super().default(o)
+            if id(o) in self._cache:
+                try:
+                    self.audit.append(weakref.ref(o))
+                except TypeError:
+                    self.unauditable += 1
+            return r
+    return AuditEncoder
+
+
+def stream_id_cache(ctx, mods, pop, ex_instances):
+    cirq = mods['cirq']
+    Audit, NoCache = _audit_encoder(cirq), _nocache_encoder(cirq)
+    stats = collections.Counter()
+    # (a) which classes hand fresh serialisable children to the encoder (the precondition of a stale id)
+    fresh = set()
+    for t, objs in pop.by_type.items():
+        for o in objs[:2]:
+            try:
+                d1, d2 = o._json_dict_(), o._json_dict_()
+            except Exception:      # noqa
+                continue
+            if not isinstance(d1, dict):
+                continue
+            for k in d1:
+                v1, v2 = d1[k], d2.get(k)
+                items1 = list(v1) if isinstance(v1, (list, tuple)) else [v1]
+                items2 = list(v2) if isinstance(v2, (list, tuple)) else [v2]
+                for e1, e2 in zip(items1, items2):
+                    if hasattr(e1, '_json_dict_') and e1 is not e2:
+                        fresh.add(f'{t.__name__}.{k}' + (' (by-key parent)' if isinstance(o, cirq.SerializableByKey) else ''))
+    stats['classes_with_fresh_serialisable_children'] = len(fresh)
+    # (b) stress: big nestings of short-lived temporaries around shared by-key circuits, audited
+    insts = [x for x in ex_instances if hasattr(x, '_json_dict_')]
+    rounds = 25 if ctx.tier == 'quick' else 250
+    for r in range(rounds):
+        q = cirq.LineQubit.range(3)
+        fcs = [cirq.FrozenCircuit(cirq.X(q[i % 3]) ** (0.125 * i), cirq.measure(q[i % 3], key=f'k{i}')) for i in range(ctx.rng.randint(1, 4))]
+        items = []
+        for _ in range(ctx.rng.randint(20, 80)):
+            c = ctx.rng.random()
+            if c < 0.35 and insts:
+                items.append(ctx.rng.choice(insts))
+            elif c < 0.55:
+                items.append(cirq.CircuitOperation(ctx.rng.choice(fcs), repetitions=ctx.rng.randint(1, 3)))
+            elif c < 0.7:
+                items.append({'fc': ctx.rng.choice(fcs), 'z': complex(ctx.rng.random(), 1.0), 'l': [ctx.rng.choice(fcs)]})
+            elif c < 0.85:
+                import sympy, numpy as np
+                items.append([sympy.Symbol('s') * ctx.rng.randint(1, 5) + 1, np.float32(0.5), np.int64(ctx.rng.randint(0, 9))])
+            else:
+                items.append(cirq.Circuit(cirq.Moment(cirq.CircuitOperation(ctx.rng.choice(fcs))), cirq.Y(q[0]) ** ctx.rng.random()))
+        try:
+            with warnings.catch_warnings():
+                warnings.simplefilter('ignore')
+                enc = Audit(indent=2)
+                text = enc.encode(items)
+                ref = json.dumps(items, indent=2, cls=NoCache)
+                back = cirq.read_json(json_text=text)
+        except TypeError as e:
+            if 'unhashable type' in str(e):
+                stats['rounds_skipped_unhashable'] += 1
+                continue
+            raise
+        dead = sum(1 for w in enc.audit if w() is None)
+        stats['rounds'] += 1
+        stats['cached_objects_audited'] += len(enc.audit)
+        stats['cached_objects_not_weakrefable'] += enc.unauditable
+        stats['cached_objects_dead_during_dump'] += dead
+        ctx.count('id_cache_stress', text[:2000] + str(len(text)), True, sample=dict(items=len(items), bytes=len(text), vals=text.count('"VAL"'), refs=text.count('"REF"')))
+        if text != ref or not _deep_eq(back, items):
+            ctx.violation('codec:id-cache', 'the id()-keyed CirqEncoder._cache changed a document (stale id) or the stress value did not round-trip',
+                          dict(kind='id_cache', round=r, seed=ctx.seed))
+        elif dead:
+            ctx.mark_broken('audit:id-cache', f'{dead} cached objects died during one dump: their ids are reusable while _cache still maps them')
+    # (c) the hazard itself, with a by-key class that is NOT registered (outside the property's quantifier): documents F5
+    class Leaf:
+        def __init__(self, n):
+            self.n = n
+
+        def _json_dict_(self):
+            return {'n': self.n}
+
+        @classmethod
+        def _json_namespace_(cls):
+            return 'vf'
+
+    class Fresh(cirq.SerializableByKey):
+        def __init__(self, n):
+            self.n = n
+
+        def _json_dict_(self):
+            return {'kids': [Leaf(self.n * 100 + i) for i in range(3)]}
+
+        @classmethod
+        def _json_namespace_(cls):
+            return 'vf'
+
+        def __eq__(self, o):
+            return isinstance(o, Fresh) and o.n == self.n
+
+        def __hash__(self):
+            return hash(('F', self.n))
+    doc = json.loads(cirq.to_json([Fresh(i) for i in range(1, 6)]))
+    got = [[k['n'] for k in d['val']['kids']] for d in doc]
+    want = [[i * 100 + j for j in range(3)] for i in range(1, 6)]
+    stats['hazard_reproduced_with_unregistered_by_key_class'] = got != want
+    ctx.cov['id_cache'] = dict(stats, fresh_children=sorted(fresh)[:40])
+
+
+# ------------------------------------------------------------------------------------------------ another process, another hash seed
+XPROC_CHILD = r"""
+import sys, pickle, json, warnings
+warnings.simplefilter('ignore')
+import cirq, cirq_google, cirq_ionq, cirq_aqt, cirq_pasqal
+rows = pickle.load(open(sys.argv[1], 'rb'))
+bad = []
+for i, (label, data, text) in enumerate(rows):
+    try:
+        p = pickle.loads(data)
+        f = cirq.read_json(json_text=text)
+        if not (p == f) or hash(p) != hash(f) or {f: 1}.get(p) != 1:
+            bad.append([i, label, 'unpickled value and freshly read value: == %s, hashes %s' % (p == f, hash(p) == hash(f))])
+    except Exception as e:
+        bad.append([i, label, type(e).__name__ + ': ' + str(e)[:200]])
+print('XPROC ' + json.dumps(bad))
+"""
+
+
+def stream_xproc(ctx, mods, ex):
+    """Pickles made AFTER the hash was cached are opened in a process with another PYTHONHASHSEED: the unpickled value must
+    equal, and hash like, the value read freshly from JSON there (equal values have equal hashes, in any history)."""
+    rows = ex.xproc
+    if not rows:
+        return
+    d = os.path.join(env.BUILD, 'cases')
+    os.makedirs(d, exist_ok=True)
+    path = os.path.join(d, f'c11_xproc_{ctx.seed}.pkl')
+    pickle.dump(rows, open(path, 'wb'))
+    child = os.path.join(d, f'c11_xproc_{ctx.seed}.py')
+    open(child, 'w').write(XPROC_CHILD)
+    envv = dict(os.environ, PYTHONHASHSEED='12345')
+    p = subprocess.run([sys.executable, '-W', 'ignore', child, path], stdout=subprocess.PIPE, stderr=subprocess.STDOUT, text=True,
+                       env=envv, timeout=600)
+    m = re.search(r'^XPROC (.*)$', p.stdout, re.M)
+    if not m:
+        ctx.mark_broken('harness:xproc', p.stdout[-1500:])
+        return
+    bad = json.loads(m.group(1))
+    for i, label, why in bad:
+        cls = label.split(':')[0]
+        ctx.violation(f'xproc:{cls}', f'{label}: pickled after hashing, opened under another hash seed: {why}',
+                      dict(kind='xproc', label=label, pickle_b64=base64.b64encode(rows[i][1]).decode(), json_text=rows[i][2]))
+    for label, _, _ in rows:
+        ctx.count('xproc', label, True)
+    ctx.cov['cross_process'] = dict(values=len(rows), failing=len(bad), child_hash_seed=12345)
